@@ -18,7 +18,8 @@ SPEC = {
                   "create_children": 30, "create_calls": 200, "create_caller_over_env_keys": 30,
                   "create_env_over_default_keys": 8, "create_fallback_service_name": 20,
                   "create_calls:process.executable.name-non-string": 8,
-                  "provider_spans": 100, "provider_logs": 100, "provider_metric_batches": 100},
+                  "provider_spans": 100, "provider_logs": 100, "provider_metric_batches": 100,
+                  "provider_metric_batches_empty_cycle": 30},
         "thorough": {"env_strings": 480000, "uint_must_accept": 24000, "uint_leading_minus_wraps_into_32bit": 8000,
                      "dur_must_accept": 24000, "dur_overflow_digit_runs": 8000, "dur_overflow_unit_conversions": 2400,
                      "bool_must_accept": 24000, "float_must_accept": 24000, "stale_errno_on_must_accept": 40000,
@@ -26,7 +27,8 @@ SPEC = {
                      "detect_lists_canonical": 32000, "detect_service_name_over_attributes": 12000,
                      "create_children": 2800, "create_calls": 16000, "create_caller_over_env_keys": 2400,
                      "create_calls:process.executable.name-non-string": 640,
-                     "provider_spans": 8000, "provider_logs": 8000, "provider_metric_batches": 8000},
+                     "provider_spans": 8000, "provider_logs": 8000, "provider_metric_batches": 8000,
+                     "provider_metric_batches_empty_cycle": 2000},
     },
     "engine": "E1 model-oracle",
     "engines_used": ["E1 model-oracle", "E5 process-per-case"],
